@@ -85,7 +85,7 @@ CHECKS = {
     'C02': "Proved (all trees with valid names, all token trees with separator-free literals - proved of every tree the parser produces - any engine that decides the "
            "regular languages): C02_walk_of_a_glob_yields_exactly_its_matches - the machine with the glob layer built from the encoder's complete program and component "
            "programs yields exactly the entries the complete program matches, in pre-order, each once. Pruning soundness of the component programs is a theorem "
-           "(C02_component_programs_prune_soundly), no longer a hypothesis; for globs with an invariant prefix the walk of the sub-directory yields exactly the matching entries of the whole tree below the prefix (C02_prefixed_glob_walk_yields_exactly_its_matches: lookup, prefix splitting and the starting directory are in the model); table hypothesis (case folding never relates `/`) checked over all code points on every run. "
+           "(C02_component_programs_prune_soundly), no longer a hypothesis; for globs with an invariant prefix the walk of the sub-directory yields exactly the matching entries of the whole tree below the prefix (C02_prefixed_glob_walk_yields_exactly_its_matches: lookup, prefix splitting and the starting directory are in the model); for a glob that builds outside the three known classes of C01 the yielded entries are exactly those whose path is in the documented language (C02_walk_of_a_built_glob_yields_its_documented_language); table hypothesis (case folding never relates `/`) checked over all code points on every run. "
            "Tie: token tree, complete program and component programs of every walked glob, and the item sequences of real "
            "walks over generated on-disk trees vs the model's run on the independently read tree. Oracle: independent read-back filtered by is_match.",
     'C03': "Proved (all trees with valid names, underlying stacks, depth windows): C03_not_is_a_filter_for_tree_terminated_negations - when the exhaustive part of the "
